@@ -1,7 +1,7 @@
 """Small repository-specific lints shared by several properties."""
 import ast
 
-from .core import src, qualname_of, enclosing_function
+from .core import src, qualname_of, enclosing_function, AnalysisError
 
 LANG_CALLS = ('get_global_language',)
 
@@ -224,4 +224,260 @@ def r_oneshot_iterators(repo, rep, R, rels, consequence):
             rep.violation(R, '%s:%s %s' % (rel, use.lineno, qualname_of(fn)), '%s:%s:one-shot:%s' % (rel, qualname_of(fn), name),
                           '`%s` is an iterator (%s) created once at line %d and drawn from in every round of the loop at line %d: it is used up in the first round -- %s'
                           % (name, src(a.value)[:50], a.lineno, loop.lineno, consequence))
+    return n
+
+
+UNBOUND_EXAMPLE = '''
+def to_text(trees, fmt):
+    if fmt == 'a':
+        lang = pick()
+        out = render_a(trees, lang)
+    elif fmt == 'b':
+        out = render_b(trees, lang == 'ja')
+    else:
+        out = ''
+    return out
+'''
+
+
+def possibly_unbound(fn):
+    """-> [(Name node, name)] reads of a local of `fn` on a path along which no assignment to it has happened yet, judged
+    over the branching of if / elif / else and try / except only (a loop body is taken to run: `for x in xs: last = x`
+    followed by a use of `last` is not reported).  Nested functions and comprehensions are not entered."""
+    a = fn.args
+    params = {x.arg for x in a.posonlyargs + a.args + a.kwonlyargs} | ({a.vararg.arg} if a.vararg else set()) | ({a.kwarg.arg} if a.kwarg else set())
+    declared = set()
+    for n in ast.walk(fn):
+        if isinstance(n, (ast.Global, ast.Nonlocal)):
+            declared |= set(n.names)
+    own = []
+
+    def collect(node):
+        for c in ast.iter_child_nodes(node):
+            if isinstance(c, (ast.FunctionDef, ast.AsyncFunctionDef, ast.ClassDef, ast.Lambda)):
+                if isinstance(c, (ast.FunctionDef, ast.AsyncFunctionDef, ast.ClassDef)):
+                    own.append(('store', c.name))
+                continue
+            collect(c)
+            if isinstance(c, ast.Name) and isinstance(c.ctx, (ast.Store, ast.Del)):
+                own.append(('store', c.id))
+            if isinstance(c, ast.ExceptHandler) and c.name:
+                own.append(('store', c.name))
+            if isinstance(c, (ast.Import, ast.ImportFrom)):
+                for al in c.names:
+                    own.append(('store', (al.asname or al.name).split('.')[0]))
+    collect(fn)
+    locals_ = {nm for _, nm in own} - declared - params
+    out = []
+
+    def reads(expr, bound):
+        if expr is None:
+            return
+        if isinstance(expr, (ast.Lambda, ast.FunctionDef, ast.AsyncFunctionDef, ast.ClassDef)):
+            return
+        if isinstance(expr, (ast.ListComp, ast.SetComp, ast.GeneratorExp, ast.DictComp)):
+            b2 = set(bound)
+            for g in expr.generators:
+                reads(g.iter, b2)
+                for t in ast.walk(g.target):
+                    if isinstance(t, ast.Name):
+                        b2.add(t.id)
+                for c in g.ifs:
+                    reads(c, b2)
+            for part in ([expr.key, expr.value] if isinstance(expr, ast.DictComp) else [expr.elt]):
+                reads(part, b2)
+            return
+        if isinstance(expr, ast.NamedExpr):
+            reads(expr.value, bound)
+            bound.add(expr.target.id)
+            return
+        if isinstance(expr, ast.Name):
+            if isinstance(expr.ctx, ast.Load) and expr.id in locals_ and expr.id not in bound:
+                out.append((expr, expr.id))
+            return
+        for c in ast.iter_child_nodes(expr):
+            reads(c, bound)
+
+    def bind(target, bound):
+        for t in ast.walk(target):
+            if isinstance(t, ast.Name) and isinstance(t.ctx, (ast.Store, ast.Del)):
+                bound.add(t.id)
+
+    def block(stmts, bound):
+        """-> set of names bound after the block, or None when the block always leaves (return / raise / continue / break)"""
+        for s in stmts:
+            if isinstance(s, (ast.FunctionDef, ast.AsyncFunctionDef, ast.ClassDef)):
+                bound.add(s.name)
+            elif isinstance(s, (ast.Import, ast.ImportFrom)):
+                for al in s.names:
+                    bound.add((al.asname or al.name).split('.')[0])
+            elif isinstance(s, ast.Assign):
+                reads(s.value, bound)
+                for t in s.targets:
+                    for sub in ast.walk(t):
+                        if isinstance(sub, (ast.Subscript, ast.Attribute)):
+                            reads(sub, bound)
+                    bind(t, bound)
+            elif isinstance(s, ast.AnnAssign):
+                reads(s.value, bound)
+                if s.value is not None:
+                    bind(s.target, bound)
+            elif isinstance(s, ast.AugAssign):
+                reads(s.value, bound)
+                reads(ast.Name(id=s.target.id, ctx=ast.Load()) if isinstance(s.target, ast.Name) else s.target, bound)
+            elif isinstance(s, (ast.Return, ast.Raise)):
+                reads(getattr(s, 'value', None) or getattr(s, 'exc', None), bound)
+                return None
+            elif isinstance(s, (ast.Continue, ast.Break)):
+                return None
+            elif isinstance(s, ast.If):
+                reads(s.test, bound)
+                a_ = block(s.body, set(bound))
+                b_ = block(s.orelse, set(bound))
+                if a_ is None and b_ is None:
+                    return None
+                bound = (a_ & b_) if a_ is not None and b_ is not None else (a_ if a_ is not None else b_)
+            elif isinstance(s, (ast.For, ast.AsyncFor)):
+                reads(s.iter, bound)
+                bind(s.target, bound)
+                a_ = block(s.body, set(bound))
+                bound = a_ if a_ is not None else bound
+                b_ = block(s.orelse, set(bound))
+                bound = b_ if b_ is not None else bound
+            elif isinstance(s, ast.While):
+                reads(s.test, bound)
+                a_ = block(s.body, set(bound))
+                bound = a_ if a_ is not None else bound
+            elif isinstance(s, (ast.With, ast.AsyncWith)):
+                for it in s.items:
+                    reads(it.context_expr, bound)
+                    if it.optional_vars is not None:
+                        bind(it.optional_vars, bound)
+                a_ = block(s.body, bound)
+                if a_ is None:
+                    return None
+                bound = a_
+            elif isinstance(s, ast.Try):
+                a_ = block(s.body, set(bound))
+                outs = []
+                if a_ is not None:
+                    e_ = block(s.orelse, set(a_))
+                    if e_ is not None:
+                        outs.append(e_)
+                for h in s.handlers:
+                    hb = set(bound)
+                    if h.name:
+                        hb.add(h.name)
+                    h_ = block(h.body, hb)
+                    if h_ is not None:
+                        outs.append(h_)
+                if not outs:
+                    if s.finalbody:
+                        block(s.finalbody, set(bound))
+                    return None
+                nb = set.intersection(*outs)
+                if s.finalbody:
+                    f_ = block(s.finalbody, set(nb))
+                    if f_ is None:
+                        return None
+                    nb = f_
+                bound = nb
+            elif isinstance(s, ast.Delete):
+                pass
+            else:
+                for c in ast.iter_child_nodes(s):
+                    reads(c, bound)
+        return bound
+    block(fn.body, set(params))
+    return out
+
+
+def r_possibly_unbound(repo, rep, R, files, consequence):
+    ex = ast.parse(UNBOUND_EXAMPLE).body[0]
+    got = [nm for _, nm in possibly_unbound(ex)]
+    if got != ['lang']:
+        raise AnalysisError('embedded positive example for the unbound-local rule: expected [lang], analysis reports %s' % got)
+    n = 0
+    for rel in files:
+        mod = repo.module(rel)
+        for fn in [f for f in ast.walk(mod.tree) if isinstance(f, (ast.FunctionDef, ast.AsyncFunctionDef))]:
+            n += 1
+            seen = set()
+            for node, nm in possibly_unbound(fn):
+                if nm in seen:
+                    continue
+                seen.add(nm)
+                rep.violation(R, '%s:%s %s' % (rel, node.lineno, qualname_of(fn)), '%s:%s:unbound:%s' % (rel, qualname_of(fn), nm),
+                              '`%s` is read on a branch where nothing has been assigned to it yet (it is only set on another branch): UnboundLocalError -- %s' % (nm, consequence))
+    rep.ok(R, ', '.join(files[:2]) + ' ..', 'no function reads a local on a branch where it is not yet assigned (%d functions; the embedded example fires)' % n)
+    return n
+
+
+def _const_feasible(conds):
+    """False when the path conditions contradict each other on comparisons of one term with constants
+    (x in ('a', 'b') false and x == 'a' true; x == 'a' and x == 'b'; ..)"""
+    must, cannot = {}, {}
+    for c, pol, _ in conds:
+        while c[0] == 'unop' and c[1] == 'not':
+            c, pol = c[2], not pol
+        if c[0] != 'cmp':
+            continue
+        op, l, r = c[1], c[2], c[3]
+        if op in ('==', '!=') and r[0] == 'const':
+            vals, key, eq = {r[1]}, l, (op == '==') == pol
+        elif op in ('==', '!=') and l[0] == 'const':
+            vals, key, eq = {l[1]}, r, (op == '==') == pol
+        elif op in ('in', 'not in') and r[0] in ('tuple', 'list', 'set') and all(x[0] == 'const' for x in r[1]):
+            vals, key, eq = {x[1] for x in r[1]}, l, (op == 'in') == pol
+        else:
+            continue
+        try:
+            hash(tuple(vals))
+        except TypeError:
+            continue
+        if eq:
+            must[key] = (must[key] & vals) if key in must else set(vals)
+        else:
+            cannot.setdefault(key, set()).update(vals)
+    for key, vs in must.items():
+        if not (vs - cannot.get(key, set())):
+            return False
+    return True
+
+
+def r_unbound_reads(repo, rep, R, files, consequence):
+    """candidates from possibly_unbound (branch structure), each confirmed on the paths of the function: reported only
+    when a path whose conditions do not contradict each other reads the name before anything was assigned to it"""
+    from .pysym import SymExec, subterms, terms_of
+    ex = ast.parse(UNBOUND_EXAMPLE).body[0]
+    got = [nm for _, nm in possibly_unbound(ex)]
+    if got != ['lang']:
+        raise AnalysisError('embedded positive example for the unbound-local rule: expected [lang], analysis reports %s' % got)
+    n = 0
+    for rel in files:
+        mod = repo.module(rel)
+        for fn in [f for f in ast.walk(mod.tree) if isinstance(f, (ast.FunctionDef, ast.AsyncFunctionDef))]:
+            n += 1
+            cands = {}
+            for node, nm in possibly_unbound(fn):
+                cands.setdefault(nm, node)
+            if not cands:
+                continue
+            try:
+                paths = SymExec(fn, unroll=1).run()
+            except AnalysisError:
+                continue
+            confirmed = {}
+            for st, o in paths:
+                if not _const_feasible(st.conds):
+                    continue
+                for t in terms_of(st):
+                    for x in subterms(t):
+                        if x[0] == 'name' and x[1] in cands and x[1] not in confirmed:
+                            confirmed[x[1]] = [c for c, pol, _ in st.conds][-1:] if st.conds else []
+            for nm in sorted(confirmed):
+                node = cands[nm]
+                rep.violation(R, '%s:%s %s' % (rel, node.lineno, qualname_of(fn)), '%s:%s:unbound:%s' % (rel, qualname_of(fn), nm),
+                              '`%s` is read on a branch where nothing has been assigned to it (it is only set on another branch): UnboundLocalError -- %s' % (nm, consequence))
+    rep.ok(R, ', '.join(files[:2]) + ' ..', 'no function reads a local on a feasible path before it is assigned (%d functions; the embedded example fires)' % n)
     return n
